@@ -105,6 +105,12 @@ class FitProperties(dict):
                         return
                 # Trigger `self.reset`
                 self.reset()
+            # Store a private copy of the setting. Otherwise, in-place
+            # changes of the user's object (e.g. a list, a dictionary, or
+            # an instance of `lmfit.Parameters`) would silently modify the
+            # stored settings and could not be detected above when the
+            # same object is passed again.
+            value = copy.deepcopy(value)
         elif key not in FP_RESULTS:
             msg = "Key '{}' not in FP_DEFAULT".format(key)
             raise FitKeyError(msg)
